@@ -3,6 +3,8 @@
 import SuppModel.Drv.Util
 import SuppModel.Extract.Model
 import SuppModel.Extract.Shape
+import SuppModel.Extract.LayoutPair
+import SuppModel.Extract.Rename
 import SuppModel.Flow.Scoping
 
 namespace SuppModel.Drv.Extract
@@ -26,6 +28,11 @@ partial def astOf (j : Json) : Except String Ast :=
     let n ← (← jarr j "n").toList.mapM (·.getStr?)
     let v ← (← jarr j "v").toList.mapM astOf
     pure (.node k p n v)
+
+def posOf (j : Json) : Except String Pos := do
+  let a ← j.getArr?
+  if a.size ≠ 2 then throw "pos"
+  pure ((← a[0]!.getNat?), (← a[1]!.getNat?))
 
 def posJson (p : Pos) : Json := Json.arr #[Json.num (p.1 : Nat), Json.num (p.2 : Nat)]
 
@@ -102,6 +109,42 @@ def handle (j : Json) : Json :=
       match extract lines mods tree with
       | .ok st => Json.mkObj ([("ok", Json.bool true)] ++ shape ++ stJson st)
       | .error e => Json.mkObj ([("ok", Json.bool false), ("error", Json.str (errStr e))] ++ shape)
+    | .error e, _, _ => errJson e
+    | _, .error e, _ => errJson e
+    | _, _, .error e => errJson e
+  | .ok "layoutPair" =>   -- two serialised trees: is the pair an instance of the layout theorem (`extract_C13`)?
+    match (j.getObjVal? "ast1").bind astOf, (j.getObjVal? "ast2").bind astOf with
+    | .ok t1, .ok t2 =>
+      let pairs := posPairs t1 t2
+      let φ := phiOf pairs
+      let ψ := psiOf pairs (mixPairs φ t1)
+      let S := pairS t1
+      let bad := (t1.nodes.filter (fun n => !(layoutQ φ ψ S n))).take 5
+      Json.mkObj [("ok", Json.bool (layoutPairOK t1 t2)),
+        ("eqUpToPos", Json.bool (eqUpToPos t1 t2)), ("functional", Json.bool (functional pairs)),
+        ("layoutQ", Json.bool (t1.all (layoutQ φ ψ S))), ("order", Json.bool (orderOK ψ S)), ("queries", Json.bool (queriesOK φ ψ S (namePos t1))),
+        ("positions", Json.num (pairs.length : Nat)), ("stored", Json.num ((storedLocs t1).length : Nat)),
+        ("names", Json.num ((namePos t1).length : Nat)),
+        ("failing_nodes", Json.arr (bad.map (fun n => Json.arr #[Json.str n.kind, optPosJson n.pos?,
+            Json.bool (posQ φ ψ n)])).toArray)]
+    | .error e, _ => errJson e
+    | _, .error e => errJson e
+  | .ok "markPair" =>   -- C12: is the REAL marked tree `markTree` of the unmarked tree, and do the hypotheses of C12_mark_transparent hold?
+    match (j.getObjVal? "ast").bind astOf, (j.getObjVal? "marked").bind astOf, (j.getObjVal? "cursor").bind posOf with
+    | .ok t, .ok m, .ok cursor =>
+      let k := match j.getObjVal? "mark_len" with | .ok (Json.num n) => n.mantissa.toNat | _ => 13
+      match idDiffs t m with
+      | [(some p, newId)] =>
+        let mt := markTree t cursor p newId k
+        let tr := t.rename p newId
+        let equal := m.beq mt
+        Json.mkObj [("ok", Json.bool (equal && markOK t cursor p newId k)), ("p", posJson p), ("newId", Json.str newId),
+          ("equal", Json.bool equal), ("renQ", Json.bool (t.all (renQ p newId))),
+          ("layoutPair", Json.bool (layoutPairOK tr mt)),
+          ("cursorOK", Json.bool ((pairS tr).all (fun l => Pos.lt cursor (pairPsi tr mt l) == Pos.lt cursor l))),
+          ("nameFixed", Json.bool (decide (pairPhi tr mt p = p)))]
+      | ds => Json.mkObj [("ok", Json.bool false),
+          ("why", Json.str s!"{ds.length} Name nodes differ in id between the two trees (exactly one expected)")]
     | .error e, _, _ => errJson e
     | _, .error e, _ => errJson e
     | _, _, .error e => errJson e
